@@ -4,7 +4,8 @@
    Spec/Builtins.v            : what each operation of the four multi-framework groups means (exact rationals, ASCII text).
    Model/MissingValuePyDict.v : data_quality/missing_value/python_dict.py, as written (loops, Counter, index updates).
    Model/TextCleanPyDict.v    : text_cleaning/python_dict.py on ASCII text, as written (regex \s+, strip, translate).
-   Model/BuiltinsFw.v         : the conventions of pandas.py / pyarrow.py where they differ from the spec (known findings).
+   Model/BuiltinsFw.v         : the conventions of pandas.py / pyarrow.py where they STILL differ from the spec (open findings:
+                                std/var ddof, pandas sum of an all-null column, pandas' RE2 white-space class).
    Gen/Vocab.v                : REGENERATED from /repo: vocabulary accepted by every framework subclass.
 
    WHAT IS PROVED HERE AND WHAT IS NOT.  The two plain-Python implementations are proved equal to the spec for columns /
@@ -115,7 +116,7 @@ Theorem C19_pydict_impute_refines : forall m c, py_impute m c = impute_spec m c.
 Proof. exact pydict_impute_refines_l. Qed.
 Print Assumptions C19_pydict_impute_refines.
 (* ... including the early return of _perform_imputation when the column has no null *)
-Theorem C19_pydict_perform_refines : forall num m c, py_perform_imputation num m None c = Some (impute_spec m c).
+Theorem C19_pydict_perform_refines : forall m c, py_perform_imputation m None c = impute_spec m c.
 Proof. exact pydict_perform_refines_l. Qed.
 Print Assumptions C19_pydict_perform_refines.
 (* Counter(...).most_common(1) is the first value that no other value beats in frequency *)
@@ -138,7 +139,7 @@ Theorem C19_impute_grouped_preserves_non_null : forall m keys c, List.length key
   preserves c (impute_grouped_spec m keys c).
 Proof. exact impute_grouped_spec_preserves. Qed.
 Print Assumptions C19_impute_grouped_preserves_non_null.
-Theorem C19_pydict_perform_preserves_non_null : forall num m g c c', py_perform_imputation num m g c = Some c' -> preserves c c'.
+Theorem C19_pydict_perform_preserves_non_null : forall m g c, preserves c (py_perform_imputation m g c).
 Proof. exact py_perform_preserves_l. Qed.
 Print Assumptions C19_pydict_perform_preserves_non_null.
 Example C19_preserves_ex : preserves [None; Some 2; None] [Some 2; Some 2; Some 2] /\ ~ preserves [Some 1; None] [Some 2; None].
@@ -171,64 +172,24 @@ Print Assumptions C19_grouped_single_group.
 (* the grouped loops of python_dict.py (dict of row-index lists, `result` updated in place group after group, fall-back
    to the whole-column statistic) compute the grouped spec, for every method, any keys, any column *)
 Theorem C19_pydict_grouped_refines : forall m keys c, List.length keys = List.length c ->
-  py_grouped_num m keys c = impute_grouped_spec m keys c.
+  py_grouped m keys c = impute_grouped_spec m keys c.
 Proof. exact pydict_grouped_refines_l. Qed.
 Print Assumptions C19_pydict_grouped_refines.
+(* FULL statement (formerly only for numeric columns: C19-pydict-grouped-string-column is repaired, the model has no
+   failing path any more) *)
 Theorem C19_pydict_perform_grouped_refines : forall m keys c, List.length keys = List.length c ->
-  py_perform_imputation true m (Some keys) c = Some (impute_grouped_spec m keys c).
+  py_perform_imputation m (Some keys) c = impute_grouped_spec m keys c.
 Proof. exact pydict_perform_grouped_refines_l. Qed.
 Print Assumptions C19_pydict_perform_grouped_refines.
 Example C19_grouped_ex :
-  py_grouped_num IFfill (map (fun z => [Some z]) [1;1;2;2;2]%Z) [None; Some 2; None; Some 4; Some 6] = [None; Some 2; None; Some 4; Some 6]
-  /\ py_grouped_num IBfill (map (fun z => [Some z]) [1;2;1;2]%Z) [Some 1; None; None; Some 4] = [Some 1; Some 4; None; Some 4].
+  py_grouped IFfill (map (fun z => [Some z]) [1;1;2;2;2]%Z) [None; Some 2; None; Some 4; Some 6] = [None; Some 2; None; Some 4; Some 6]
+  /\ py_grouped IBfill (map (fun z => [Some z]) [1;2;1;2]%Z) [Some 1; None; None; Some 4] = [Some 1; Some 4; None; Some 4].
 Proof. split; reflexivity. Qed.
 
-(* ---- recorded deviations: witnesses inside the domain, agreement outside where stated ---- *)
-(* C19-pandas-mode-tie-smallest *)
-Theorem C19_pandas_mode_tie_refuted : mode_l [3; 1; 3; 1] = Some 3 /\ mode_smallest [3; 1; 3; 1] = Some 1.
-Proof. split; reflexivity. Qed.
-Print Assumptions C19_pandas_mode_tie_refuted.
-(* C19-pyarrow-mode-counts-null *)
-Theorem C19_pyarrow_mode_null_refuted :
-  impute_mode_pa [None; Some 4; None] = [None; Some 4; None] /\ impute_spec IMode [None; Some 4; None] = [Some 4; Some 4; Some 4].
-Proof. split; reflexivity. Qed.
-Print Assumptions C19_pyarrow_mode_null_refuted.
-(* C19-pyarrow-int-fill-truncated; no deviation when the fill value is an integer *)
-Theorem C19_pyarrow_int_fill_partial : forall z c, fill_trunc (Some (inject_Z z)) c = fill_with (Some (inject_Z z)) c.
-Proof. exact fill_trunc_integer_l. Qed.
-Print Assumptions C19_pyarrow_int_fill_partial.
-Theorem C19_pyarrow_int_fill_refuted :
-  impute_pa_int IMean [None; Some 2; Some 5] = [Some 3; Some 2; Some 5] /\
-  exists m, impute_spec IMean [None; Some 2; Some 5] = [Some m; Some 2; Some 5] /\ m == 7#2.
-Proof. split. reflexivity. eexists. split. reflexivity. reflexivity. Qed.
-Print Assumptions C19_pyarrow_int_fill_refuted.
-(* C19-pandas-grouped-mode-no-fallback *)
-Definition k1 (z : Z) : key := [Some z].
-Theorem C19_pandas_grouped_mode_refuted :
-  impute_grouped_spec IMode (map k1 [1;2;2])%Z [None; Some 4; Some 4] = [Some 4; Some 4; Some 4] /\
-  pd_grouped true IMode (map k1 [1;2;2])%Z [None; Some 4; Some 4] = [None; Some 4; Some 4].
-Proof. split; reflexivity. Qed.
-Print Assumptions C19_pandas_grouped_mode_refuted.
-(* C19-pyarrow-grouped-fill-index *)
-Theorem C19_pyarrow_grouped_fill_refuted :
-  impute_grouped_spec IFfill (map k1 [1;1;2;2;2])%Z [None; Some 2; None; Some 4; Some 6] = [None; Some 2; None; Some 4; Some 6] /\
-  pa_grouped true IFfill (map k1 [1;1;2;2;2])%Z [None; Some 2; None; Some 4; Some 6] = [None; Some 2; Some 4; Some 4; Some 6].
-Proof. split; reflexivity. Qed.
-Print Assumptions C19_pyarrow_grouped_fill_refuted.
-Definition red (c : col) : col := map (option_map Qred) c.   (* cells as reduced fractions, for display *)
-(* C19-grouped-null-key: pandas drops the rows of a null key from every group (and erases them on ffill/bfill) *)
-Theorem C19_null_key_refuted :
-  let keys : list key := [[Some 1%Z]; [None]; [Some 1%Z]; [None]] in let c := [None; Some 2; Some 8; None] in
-  impute_grouped_spec IFfill keys c = [None; Some 2; Some 8; Some 2] /\ pd_grouped true IFfill keys c = [None; None; Some 8; None] /\
-  red (impute_grouped_spec IMean keys c) = [Some 8; Some 2; Some 8; Some 2] /\
-  red (pd_grouped true IMean keys c) = [Some 8; Some 2; Some 8; Some 5].
-Proof. vm_compute. repeat split. Qed.
-Print Assumptions C19_null_key_refuted.
-(* C19-pydict-grouped-string-column: statistics.mean is evaluated before the method is looked at *)
-Theorem C19_pydict_grouped_string_refuted : forall m keys x t, (forall k, m <> IConst k) ->
-  py_grouped false m keys (Some x :: t) = None.
-Proof. intros m keys x t H. destruct m; try reflexivity. exfalso. eapply H. reflexivity. Qed.
-Print Assumptions C19_pydict_grouped_string_refuted.
+(* The deviations formerly recorded here (pandas mode ties / grouped mode without fall-back / groupby(tuple), pyarrow mode
+   counting nulls / truncated fill values / grouped ffill-bfill positions and crash, null group keys, PythonDict grouped
+   string columns) are repaired in /repo: the correspondence check holds every framework to `impute_spec` /
+   `impute_grouped_spec` themselves, with no exception domain. *)
 
 (* ============================================== time windows ============================================== *)
 Theorem C19_window_length : forall op w times c, List.length (window_spec op w times c) = List.length c.
@@ -246,20 +207,22 @@ Theorem C19_window_one_identity : forall op c, (op = WFirst \/ op = WLast) -> wi
 Proof. exact window_one_identity_l. Qed.
 Print Assumptions C19_window_one_identity.
 
-(* FULL STATEMENT (does not hold for pandas.py): forall op w times c, window_pd op w times c = window_spec op w times c.
-   known finding C19-pandas-window-unsorted-positional; domain: the rows are not in ascending time order *)
-Theorem C19_window_pandas_partial : forall op w times c, List.length times = List.length c -> nondecr times ->
-  window_pd op w times c = window_spec op w times c.
-Proof. exact window_pd_sorted_l. Qed.
-Print Assumptions C19_window_pandas_partial.
-Example C19_window_pandas_partial_ex : nondecr [0; 3; 3; 7]%Z /\ ~ nondecr [3; 0; 2; 1]%Z.
+(* rows already in time order: the spec is the plain rolling aggregate in row order ... *)
+Theorem C19_window_sorted_is_rolling : forall op w times c, List.length times = List.length c -> nondecr times ->
+  window_spec op w times c = windows_sorted op w c.
+Proof. exact window_spec_sorted_l. Qed.
+Print Assumptions C19_window_sorted_is_rolling.
+Example C19_window_sorted_ex : nondecr [0; 3; 3; 7]%Z /\ ~ nondecr [3; 0; 2; 1]%Z.
 Proof. split. cbn. repeat split; intros; repeat (destruct H as [<-|H]; try lia); try contradiction.
   intros [H _]. specialize (H 0%Z). cbn in H. assert (3 <= 0)%Z by (apply H; auto). lia. Qed.
-Theorem C19_window_pandas_unsorted_refuted :
+(* ... and for rows NOT in time order the results have to be put back into the rows they belong to (pandas.py used to
+   return them by position: C19-pandas-window-unsorted-positional, repaired; pandas is now held to window_spec) *)
+Theorem C19_window_unsorted_needs_reordering :
   window_spec (WAgg ASum) 2 [3; 0; 2; 1]%Z [Some 1; Some 2; Some 3; Some 4] = [Some 4; Some 2; Some 7; Some 6] /\
-  window_pd (WAgg ASum) 2 [3; 0; 2; 1]%Z [Some 1; Some 2; Some 3; Some 4] = [Some 2; Some 6; Some 7; Some 4].
+  windows_sorted (WAgg ASum) 2 (map (fun i => nth i [Some 1; Some 2; Some 3; Some 4] None) (time_order [3; 0; 2; 1]%Z))
+    = [Some 2; Some 6; Some 7; Some 4].
 Proof. vm_compute. split; reflexivity. Qed.
-Print Assumptions C19_window_pandas_unsorted_refuted.
+Print Assumptions C19_window_unsorted_needs_reordering.
 (* pyarrow.py differs from the spec through std / var only *)
 Theorem C19_window_pyarrow_partial : forall op w times c, op <> WAgg AStd -> op <> WAgg AVar ->
   window_pa op w times c = window_spec op w times c.
